@@ -8,10 +8,10 @@
 From Aelys Require Import Base.Tactics Model.Utf8 Proofs.Utf8Proofs.
 Local Open Scope N_scope.
 
-(* The iteration theorems are stated for the opcode the compiler selects when it types the
-   iterable as string (vm_for_each SelString = the StringForLoop path).  For an iterable whose
-   static type is unknown the compiler selects VecForLoop, and the universal statement is
-   FALSE of the code: see C20_dynamic_foreach_refuted at the end. *)
+(* The iteration theorems are stated for the StringForLoop path (vm_for_each SelString).  For
+   an iterable whose static type is unknown the compiler selects VecForLoop; since the repair
+   8e1534c its String arm performs the same computation: C20_dynamic_foreach_same transfers
+   every theorem below to that selection. *)
 
 (* the decoder (chars().next()) inverts the encoder on every scalar, whatever bytes follow *)
 Theorem C20_decode_encode : forall c rest, valid_scalar c = true ->
@@ -83,19 +83,15 @@ Theorem C20_encode_wellformed : forall c, c <= 0x10FFFF ->
   match encode c with [] => False | x :: r => is_cont x = false /\ Forall (fun b => is_cont b = true) r end.
 Proof. exact encode_bytes. Qed.
 
-(* ---- iterable of unknown static type: for-each compiled as VecForLoop.
-   REFUTED: "he'llo" (5 characters, s[1] = e-acute succeeds) yields 0 items, silently. *)
-Theorem C20_dynamic_foreach_refuted :
-  exists cs, all_valid cs /\ char_len (utf8 cs) = 5%nat
-             /\ length (items (vm_for_each SelDynamic (utf8 cs))) = 0%nat
-             /\ load_char (utf8 cs) 1 = LoadOk [0xC3; 0xA9].
-Proof. exact dynamic_foreach_refuted_lemma. Qed.
+(* ---- iterable of unknown static type: for-each compiled as VecForLoop gives, for every byte
+   string, exactly what StringForLoop gives (items, final offset, termination) *)
+Theorem C20_dynamic_foreach_same : forall k s, vm_for_each k s = vm_for_each SelString s.
+Proof. exact vm_for_each_any_sel. Qed.
 
-(* the strongest true statement for that selection: it agrees with the characters exactly
-   for the empty string (the guard of all theorems above is "selected opcode = StringForLoop") *)
-Theorem C20_dynamic_foreach_only_empty : forall cs, all_valid cs ->
-  (items (vm_for_each SelDynamic (utf8 cs)) = map encode cs <-> cs = []).
-Proof. exact dynamic_foreach_lemma. Qed.
+Theorem C20_iter_yields_any_selection : forall k cs, all_valid cs ->
+  vm_for_each k (utf8 cs)
+  = {| items := map encode cs; final_off := byte_len (utf8 cs); finished := true |}.
+Proof. exact iter_yields_any_lemma. Qed.
 
 (* non-vacuity: "cafe" + combining acute, an astral emoji, NUL, and every width boundary *)
 Example C20_nonvacuous :
